@@ -380,35 +380,21 @@ congruence<Number>::operator%(const congruence<Number> &o) const {
              else          top
     */
     if (o.m_a == 0) {
-      if (m_a % o.m_b == 0) {
+      if (m_a == 0) {
+        // both singletons
         return congruence<Number>(Number(0), m_b % o.m_b);
       } else {
+        // The remainder x - b'*(x/b') is congruent with x modulo
+        // b'. Its sign follows the dividend so it is not a
+        // singleton even if b' divides a.
         return congruence<Number>(gcd(m_a, o.m_b), m_b);
       }
     }
-    /*
-          0Z+b mod a'Z+b':
-           if N<=0           then 0Z+b
-           if (b div N) == 1 then gcd(b',a')Z + b
-           if (b div N) >= 2 then N(b div N)Z  + b
-
-         where N = a'((b-b') div a') + b'
-    */
-    if (m_a == 0) {
-      Number n(o.m_a * (((m_b - o.m_b) / o.m_a) + o.m_b));
-      if (n <= 0) {
-        return congruence<Number>(m_a, m_b);
-      } else if (m_b == n) {
-        return congruence<Number>(gcd(o.m_b, o.m_a), m_b);
-      } else if ((m_b / n) >= 2) {
-        return congruence<Number>(m_b, m_b);
-      } else {
-        CRAB_ERROR("unreachable");
-      }
-    }
 
     /*
-      general case: no singleton
+      General case: the divisor y is not a singleton. The remainder
+      x - y*(x/y) is congruent with x modulo gcd(a',b') because
+      gcd(a',b') divides every y in a'Z+b'.
     */
     return congruence<Number>(gcd(m_a, o.m_a, o.m_b), m_b);
   }
